@@ -31,6 +31,30 @@ P = {
    "Closed-loop simulation in classic mode with the stall guard off from random window vectors, with R-flagged data, critical windows, SRTLA ACKs, cumulative ACKs, NAKs, resets and housekeeping ticks (some runs start in enhanced mode and switch, leaving quality caches stale); an independent re-implementation of the reference rules predicts every routing choice and every window from the observed pre-state of each step (stepwise refinement, so one divergence is localised to one event). Seeded sampling of histories.",
    "Trusted: usable = REG3 since last reset, connected, heard within the configured timeout (monitor's own stamps); the link a NAK was charged to is taken from observation (C05 judges it).",
    "§P-C10"),
+ "C07": (True, "L", "fault_enumeration",
+   "Simulation of the real registration manager inside the real shell (uplink_recv, housekeeping) on 2..3 uplinks with start-up probing, against an adversarial receiver (up to 14 handshake packets of every kind - REG_NGP, REG2 well-formed / short / over-long / wrong link / foreign id, REG3, REG_ERR - on any link at instants straddling the 1 s / 2 s / 4 s / 5 s deadlines by +-1 ms, late, twice or never) and against the cooperative receiver with loss, delay, black holes and restarts; a wire-level protocol monitor evaluates the eight clauses of the statement after every step and bounded liveness in clean runs. Seeded sampling of packet/tick sequences to bounded depth.",
+   "Trusted: the immediate REG1 answering a REG_NGP is judged by the one-outstanding rule only (the 'only while no uplink is registered' clause is about the housekeeping driver). Reload is outside C07's quantifier.",
+   "§P-C07"),
+ "C08": (True, "L", "fault_enumeration",
+   "Simulation of the whole recovery loop (housekeeping -> reconnect -> REG2/REG1 -> REG3 -> warming) on 2..4 uplinks over 15 s to 10 virtual minutes with per-link fault/repair schedules (black holes in either direction, total loss, lost handshake replies, receiver restarts, send errors, bind failures) across the clamped timeout range and both modes; monitors for tear-down cause, retry spacing and back-off cap, bounded liveness with a precondition evaluated from the plan and the receiver model at every tick, clean rejoin, and survivors carrying the stream. Seeded sampling of fault schedules.",
+   "Trusted: receiver expiry 10 s as in srtla_rec and its accept rules as modelled; bounded liveness is judged only for links whose path has no random loss, no fault left on at the end of the plan and no bind failure (not among the listed fault kinds); a delivered REG_ERR is the peer's rejection, not a sender-side tear-down.",
+   "§P-C08"),
+ "C09": (True, "L", "fault_enumeration",
+   "Simulation of the real uplink receive path (handle_uplink_packet / process_uplink_packet / process_connection_events) with 50..600 adversarial datagrams per run (type codes swept over the whole 16-bit space across runs, lengths 0..1500, truncated and forged ACK/NAK/keepalive) on every uplink in every link state, before and after the client address is known, with WouldBlock and hard errors injected on the client socket; relay ledger at the client seam, liveness-stamp differential and delivery-proof rule after every step; a panic outside the simulator is a violation. Seeded sampling of inputs and histories.",
+   "Trusted: SRTLA-internal is decided by type code alone; the mirrored 3-line instant-forward task; hook H4 as the only way bytes reach the client.",
+   "§P-C09"),
+ "C14": (True, "L", "fault_enumeration",
+   "Simulation of the real housekeeping pass and echo handling on 1..4 uplinks for up to 40 virtual seconds with late and stalled ticks, link loss and resets, failing sends, and echoes that are timely, late, duplicated, truncated, forged (zero / future / > 10 s old timestamps, trailing bytes); cadence judged tick by tick on the socket seam in virtual time, every keepalive frame reference-decoded against the link's pre-step state, and the RTT state allowed to change across a keepalive step iff a probe was outstanding and 0 < now - ts <= 10000. Seeded sampling of timed histories.",
+   "Trusted: a keepalive counts as sent when handed to the socket; RTT samples from cumulative SRT ACKs are outside the statement.",
+   "§P-C14"),
+ "C15": (True, "L", "exploration",
+   "RESTRICTED CLAIM. Wire tap over closed-loop runs: every datagram crossing the simulated network in either direction (legitimate traffic, 400 adversarial datagrams per run with type codes swept across runs, forged ACK/NAK lists with wide ranges, and a systematic corruption schedule of every known type code truncated to every length 0..24) is decoded by the real decoders and by an in-tree reference codec written from the layouts in the statement, and the results compared (type, data/R bit, SRT ACK number, bounded NAK expansion, SRTLA ACK list, keepalive timestamp and telemetry); every REG1/REG2/keepalive frame the sender emits is checked against its exact layout; decoder panics are violations.",
+   "The property is a statement about pure functions of a byte string; deterministic simulation decides only the datagrams that cross the simulated network and its corruptor. Totality over all byte strings of length 0..1500 is sampled, not enumerated - enumeration/fuzzing would be a different technique family and was not substituted. NAK entries are taken to start after a 4-byte header, as in the repository's decoder, builders and tests.",
+   "§P-C15"),
+ "C19": (True, "L", "fault_enumeration",
+   "Simulation of reloads mid-stream through the mirrored SIGHUP arm (real analyze_ip_reload on a real temp file: missing / empty / whitespace / garbage / mixed / duplicated / IPv4+IPv6) and the real apply_connection_changes at the next tick, 1..5 reloads per run with overlapping, disjoint and equal address sets, duplicate initial addresses and injected bind failures; exact snapshots around the apply call are compared: survivors (identity, socket, full Debug state, order), removed links (list, I/O map, NAK-attribution lookups for numbers they carried), additions (once, in order), routing choice. Seeded sampling of file contents and reload sequences.",
+   "Trusted: a parsable address is what std::net::IpAddr::from_str accepts after trimming; an IPv6 uplink towards the IPv4 receiver cannot be created here and may be absent after a reload.",
+   "§P-C19"),
 }
 NOT_BUILT_REASON = "no check is claimed for this property in this revision of /verif (machinery not built yet; see DESIGN.md §6 for the planned decision procedure)"
 
